@@ -238,7 +238,7 @@ def chunks_of(xs, n):
 FIELD_COMPONENT = {
     "ret": "api", "acks": "queue_worker", "store": "store", "weights": "weights", "used": "weights", "ticker": "ticker",
     "stats": "stats", "hit_ratio": "stats.hit_ratio", "queue_len": "queue_worker", "chan_len": "pool", "incs": "tinylfu",
-    "next_id": "api", "shut": "api", "worker": "panics", "sweeper": "panics", "consumer": "panics", "now": "time",
+    "next_id": "api", "shut": "api", "worker": "roles", "sweeper": "roles", "consumer": "roles", "now": "time",
     "pool": "pool", "rows": "sketch", "enabled": "queue_worker", "oracle": "admission",
 }
 
